@@ -194,8 +194,8 @@ func c04Filter(c *Ctx) {
 			n++
 			g1, p1 := Guarded(fn.Blocks[0], ci, passSkip, noReturnCommands)
 			g2, p2 := Guarded(fn.Blocks[0], ci, passAllow, noReturnCommands)
-			c.Check(g1 && len(passSkip) > 0, "R3", name+":"+CalleeName(ci.Common())+":not-skipped", p.InstrPos(ci), "content is materialised only when smudging is not skipped", "content can be downloaded/materialised although smudging is skipped: "+p1)
-			c.Check(g2 && len(passAllow) > 0, "R3", name+":"+CalleeName(ci.Common())+":filter-allows", p.InstrPos(ci), "content is materialised only for paths the include/exclude filter allows", "content can be downloaded/materialised for a path the include/exclude filter excludes: "+p2)
+			c.Check(g1 && nonVacuous(passSkip), "R3", name+":"+CalleeName(ci.Common())+":not-skipped", p.InstrPos(ci), "content is materialised only when smudging is not skipped", "content can be downloaded/materialised although smudging is skipped: "+p1)
+			c.Check(g2 && nonVacuous(passAllow), "R3", name+":"+CalleeName(ci.Common())+":filter-allows", p.InstrPos(ci), "content is materialised only for paths the include/exclude filter allows", "content can be downloaded/materialised for a path the include/exclude filter excludes: "+p2)
 		}
 		c.AtLeast("R3", "materialising calls in "+name, n, 1)
 		// the other edge writes the decoded pointer
